@@ -607,7 +607,7 @@ func propC05(c *Ctx) string {
 	}
 	c05Atomic(c)
 	c05Snapshot(c)
-	c05Prune(c)
+	c05Prune(c, "C05/PRUNE")
 	c05AddSet(c)
 	c.NotDecide("equality of every query answer with the map model after arbitrary histories (functional correctness over histories)",
 		"data-race freedom of callers that mutate stored values themselves", "that removeValue finds the value (uses ==)")
@@ -720,8 +720,8 @@ func c05Snapshot(c *Ctx) {
 	}
 }
 
-func c05Prune(c *Ctx) {
-	r := c.Rule("C05/PRUNE", "TRACE(table)", "a pruning helper (result guards delete(node.children,…)) reports true only when the node has neither values nor children; delete happens only on a true report for the same child key", 6)
+func c05Prune(c *Ctx, rule string) {
+	r := c.Rule(rule, "TRACE(table)", "a pruning helper (result guards delete(node.children,…)) reports true only when the node has neither values nor children; delete happens only on a true report for the same child key", 6)
 	values := c.P.Field("topic", "node", "values")
 	children := c.P.Field("topic", "node", "children")
 	// pruning helpers: unexported methods returning bool whose callers delete from children on true
